@@ -77,4 +77,6 @@ let () =
     let df = float_of_int (Stdlib.List.length ws - 1) in
     let a = 2.0 /. (9.0 *. df) in
     let bound = df *. ((1.0 -. a +. 6.5 *. sqrt a) ** 3.0) in
-    if chi <= bound then [] else [Specfail ("c20_unbiased_across_epochs", Printf.sprintf "chi2 %.1f > %.1f over %.0f epochs" chi bound tc)])
+    if chi <= bound then [] else
+      [Specfail ("c20_unbiased_across_epochs", Printf.sprintf "chi2 %.1f > %.1f over %.0f epochs" chi bound tc);
+       Specfail ("c10_opponent_drawn_with_profile_probability", Printf.sprintf "choice frequencies over %.0f epochs do not follow the profile's weights (chi2 %.1f > %.1f)" tc chi bound)])
